@@ -53,6 +53,25 @@ CLAIMED["C14"] = (
     "DESIGN.md section 4 C14",
 )
 
+CLAIMED["C11"] = (
+    "GUARD tables with provenance-described arguments, binding completeness of the Fiat-Shamir challenge, backward data-flow slice (every input influences the pairing check), mod/ref summaries",
+    "Decides for the 7 KZG packages: size refusals of Commit/Open/BatchOpen; Verify accepts only on the success edge of the pairing check whose arguments depend on commitment, quotient, claimed value, point and key; batch verification = fold then verify with the length agreements; gamma binds point, every digest, every claimed value and the extra data; no entry point writes its arguments (keys reusable); the ceremony verifier checks sizes, subgroups, the update proof and the same-ratio relation on the contribution being verified (found and fixed: it was applied to the previous setup).",
+    "Trusts the pairing (C05), the transcript (C15), the codec (C07). Completeness/soundness as algebra are not decided.",
+    "DESIGN.md section 4 C11",
+)
+CLAIMED["C16"] = (
+    "GUARD tables, guarded-indexing prover, call/store order rule, parallel write-partition rule",
+    "Decides: VerifyProof returns true only through the final root comparison after root != nil and index < numLeaves, and never indexes the proof set beyond its length; the vortex proof verifier and Open accept only positions in [0, 2^depth) (found and fixed) and compare with the root; Push/PushSubTree advance the leaf index only after the join that consumes it; the parallel level build writes only its own index range.",
+    "Collision resistance and equality of the root with the recursive tree hash are value-level: not decided.",
+    "DESIGN.md section 4 C16",
+)
+CLAIMED["C17"] = (
+    "GUARD tables written from the scheme definitions (one per verifier, 85 functions), binding completeness, type-switch arm agreement, guarded indexing",
+    "Decides for Pedersen, SHPLONK, fflonk, permutation, plookup, FRI, Vortex and the ceremony update proofs that every check the scheme prescribes dominates every accepting return, with arguments identified by provenance (which input each check is applied to); that each challenge binds the listed data; that count/collect type switches agree. Found and fixed: Vortex never compared opened columns with the linear combination; the KZG ceremony checked the wrong setup.",
+    "Sufficiency of the listed checks (soundness proper) and honest-proof completeness are not decided.",
+    "DESIGN.md section 4 C17",
+)
+
 NOT_YET = "check not built yet in this revision of /verif (see DESIGN.md section 4 for the planned structural clauses); the value-level core is not decidable by static analysis"
 
 def main():
